@@ -20,6 +20,7 @@ type PropConfig struct {
 	Packages  []string `json:"packages"`
 	Functions []string `json:"functions"`         // display names of functions under contract; "*" = every contract in the loaded packages
 	FnPkgs    []string `json:"function_packages"` // with "*": restrict to contracts of these package paths (relative to the module)
+	Labels    []string `json:"labels"`    // if non-empty: only postconditions with one of these labels are binding for this property
 	Lemmas    []string `json:"lemmas"`            // lemma names ("pkg.lemma:name"), "*" = all in function_packages
 	Sweep     *struct {
 		Packages []string `json:"packages"` // package path prefixes (relative to the module) swept without annotations
@@ -214,7 +215,18 @@ func cmdCheck(args []string) int {
 	}
 	sort.Strings(missing)
 	for _, fn := range targets {
-		results = append(results, verifyFunction(w, fn, w.Contracts[fn], false))
+		r := verifyFunction(w, fn, w.Contracts[fn], false)
+		if len(cfg.Labels) > 0 {
+			keep := r.Obls[:0]
+			for _, o := range r.Obls {
+				if o.Kind == "post" && !labelIn(o.Text, cfg.Labels) {
+					continue
+				}
+				keep = append(keep, o)
+			}
+			r.Obls = keep
+		}
+		results = append(results, r)
 	}
 	for _, l := range w.Lemmas {
 		name := l.Pkg.Types.Name() + ".lemma:" + l.Name
@@ -309,4 +321,21 @@ func loadBaseline(prop string) map[string]bool {
 func writeUndecided(prop, tier string, seed int, t0 time.Time, why string) int {
 	fmt.Printf("UNDECIDED property=%s: %s\n", prop, why)
 	return 2
+}
+
+func labelIn(text string, labels []string) bool {
+	if !strings.HasPrefix(text, "[") {
+		return true
+	}
+	i := strings.Index(text, "]")
+	if i < 0 {
+		return true
+	}
+	l := text[1:i]
+	for _, x := range labels {
+		if x == l {
+			return true
+		}
+	}
+	return false
 }
